@@ -147,7 +147,7 @@ class CounterStyle(dict):
                 return self.render_value(counter_value, 'decimal')
 
         # Step 2
-        if counter['range'] in ('auto', None):
+        if counter['range'] is None or 'auto' in counter['range']:
             min_range, max_range = -inf, inf
             if system in ('alphabetic', 'symbolic'):
                 min_range = 1
